@@ -153,7 +153,7 @@ Example c10_example :
   let r := run (init faithful) evs in
   c_status (fst r) = Closed /\
   sclosed_of (snd r) = [(1, false)] /\
-  rets_of (snd r) = [(0, 0); (1, 0); (2, 2); (3, 2)] /\
+  rets_of (snd r) = [(0, 0); (1, 0); (2, 2); (3, 2); (4, 2)] /\
   wire_after_disconnect (snd r) = [] /\
   ndisc (snd r) = 1%nat /\ connects_of (snd r) = [] /\
   finals_of (fst r) = [(0, 3); (1, 2)].
